@@ -148,7 +148,7 @@ def catalogue():
         lambda a, b, c, f=resonator[nm]: f(Stream(b) * .001 + .5, Stream(c) * .001 + .1)(a), lambda k: k, nsrc=3)
   from audiolazy import x as px, gammatone, tostream, dB20, sin as lsin
   C["poly(stream)"] = S(lambda s: (px ** 2 + 2 * px + 1)(Stream(s)), lambda k: k)
-  C["laurent-poly(stream)"] = S(lambda s: (px ** -1 + 3)(Stream(s) + 1), lambda k: k)
+  C["laurent-poly(stream)"] = S(lambda s: (px ** -1 + 3)(Stream(s) + 1), lambda k: k, chain=False)
   C["freq_response(stream)"] = S(lambda s: (1 - .5 * z ** -1).freq_response(Stream(s) * .01), lambda k: k, chain=False)
   C["cascade.freq_response(stream)"] = S(lambda s: CascadeFilter(1 - z ** -1, 1 / (1 - .5 * z ** -1))
                                          .freq_response(Stream(s) * .01 + .1), lambda k: k, chain=False)
